@@ -9,15 +9,19 @@ package main
 
 import (
 	"bytes"
+	"context"
 	"crypto/sha256"
 	"encoding/hex"
 	"encoding/json"
 	"fmt"
 	"math/big"
 	"os"
+	"os/exec"
 	"runtime"
 	"runtime/debug"
 	"strings"
+	"syscall"
+	"time"
 
 	"github.com/ethereum/go-ethereum"
 	"github.com/ethereum/go-ethereum/common"
@@ -412,6 +416,130 @@ func panicKey(msg string) string {
 }
 
 // ---------------------------------------------------------------------------------------
+// executing Match, in this process or in a memory-limited child
+
+type matchRes struct {
+	Panicked bool   `json:"panicked"`
+	PMsg     string `json:"pmsg,omitempty"`
+	MErr     string `json:"merr,omitempty"`
+	M        bool   `json:"m"`
+	Alloc    uint64 `json:"alloc"`
+	Died     string `json:"died,omitempty"` // the child process did not survive this log
+}
+
+// allocBudget: what one Match may allocate for a log with n data bytes.
+func allocBudget(d *jDef, n int) uint64 {
+	return uint64(len(d.Preds)+1)*(8*uint64(n)+1024) + 4096
+}
+
+func matchOnce(d *jDef, real *shutterservice.EventTriggerDefinition, lg *types.Log) matchRes {
+	var r matchRes
+	var merr error
+	r.Alloc = allocDelta(func() { r.Panicked, r.PMsg = vh.Guard(func() { r.M, merr = real.Match(lg) }) })
+	if merr != nil {
+		r.MErr = merr.Error()
+	}
+	if budget := allocBudget(d, len(lg.Data)); !r.Panicked && r.Alloc > budget {
+		// TotalAlloc is process-wide: an occasional runtime-internal allocation lands in the
+		// window. What Match itself allocates is allocated on every repetition.
+		for i := 0; i < 4 && r.Alloc > budget; i++ {
+			if again := allocDelta(func() { vh.Guard(func() { real.Match(lg) }) }); again < r.Alloc {
+				r.Alloc = again
+			}
+		}
+	}
+	return r
+}
+
+// isolateThreshold: a data reference further than this many words into the data is matched in
+// a child process (an implementation that pads the data up to the referenced word would
+// allocate more than 128 MiB per Match beyond it, and 128 GiB at the largest valid offset).
+const isolateThreshold = 1 << 22
+
+func needsIsolation(d *jDef) bool {
+	for _, p := range d.Preds {
+		if p.Off >= 4 && p.Off-4 > isolateThreshold {
+			return true
+		}
+	}
+	return false
+}
+
+func matchAll(run *vh.Run, d *jDef, real *shutterservice.EventTriggerDefinition, logs []jLog) []matchRes {
+	out := make([]matchRes, len(logs))
+	if !needsIsolation(d) {
+		for i, l := range logs {
+			out[i] = matchOnce(d, real, l.build())
+		}
+		return out
+	}
+	run.Dist["def:matched-in-child-process"]++
+	res, died := matchInChild(d, logs)
+	if died == "" {
+		return res
+	}
+	// find out which logs the child does not survive
+	for i, l := range logs {
+		r, died := matchInChild(d, []jLog{l})
+		if died != "" {
+			out[i] = matchRes{Died: died}
+		} else {
+			out[i] = r[0]
+		}
+	}
+	return out
+}
+
+// matchInChild runs this binary again (C17_CHILD=1) with an address-space limit and a
+// watchdog; the child answers with one matchRes per log. died describes a child that was
+// killed, ran out of memory or timed out.
+func matchInChild(d *jDef, logs []jLog) ([]matchRes, string) {
+	in, _ := json.Marshal(jCase{Kind: "def", Def: d, Logs: logs})
+	ctx, cancel := context.WithTimeout(context.Background(), 60*time.Second)
+	defer cancel()
+	cmd := exec.CommandContext(ctx, os.Args[0])
+	cmd.Env = append(os.Environ(), "C17_CHILD=1")
+	cmd.Stdin = bytes.NewReader(in)
+	var stdout, stderr bytes.Buffer
+	cmd.Stdout, cmd.Stderr = &stdout, &stderr
+	err := cmd.Run()
+	if ctx.Err() != nil {
+		return nil, "watchdog: no answer within 60 s"
+	}
+	if err != nil {
+		first := strings.SplitN(strings.TrimSpace(stderr.String()), "\n", 2)[0]
+		if len(first) > 200 {
+			first = first[:200]
+		}
+		return nil, fmt.Sprintf("%v: %s", err, first)
+	}
+	var res []matchRes
+	if err := json.Unmarshal(stdout.Bytes(), &res); err != nil || len(res) != len(logs) {
+		return nil, "child answered garbage"
+	}
+	return res, ""
+}
+
+// childMain: the C17_CHILD=1 side of matchInChild.
+func childMain() {
+	const limit = 3 << 30
+	_ = syscall.Setrlimit(syscall.RLIMIT_AS, &syscall.Rlimit{Cur: limit, Max: limit})
+	debug.SetMemoryLimit(1 << 30)
+	var c jCase
+	if err := json.NewDecoder(os.Stdin).Decode(&c); err != nil || c.Def == nil {
+		fmt.Fprintln(os.Stderr, "child: bad input")
+		os.Exit(3)
+	}
+	real := c.Def.build()
+	out := make([]matchRes, len(c.Logs))
+	for i, l := range c.Logs {
+		out[i] = matchOnce(c.Def, real, l.build())
+	}
+	b, _ := json.Marshal(out)
+	os.Stdout.Write(b)
+}
+
+// ---------------------------------------------------------------------------------------
 // execution of one definition with its logs
 
 func allocDelta(f func()) uint64 {
@@ -497,21 +625,26 @@ func runDef(run *vh.Run, d *jDef, logs []jLog) {
 		run.Violate(vh.Violation{Key: key, What: what, Case: self})
 	}
 
-	// Match on every log
+	// Match on every log (in a memory-limited child process when a data offset is large enough
+	// for an implementation that pads up to the offset to exhaust memory)
+	results := matchAll(run, d, real, logs)
 	var logTerms []string
 	var kept []jLog
 	matched, rejectedByPred := 0, 0
-	for _, l := range logs {
+	for i, l := range logs {
 		lg := l.build()
-		var m bool
-		var merr error
-		var panicked bool
-		var pmsg string
-		alloc := allocDelta(func() { panicked, pmsg = vh.Guard(func() { m, merr = real.Match(lg) }) })
+		res := results[i]
+		if res.Died != "" {
+			run.Violate(vh.Violation{Key: "C17:match-resource:process-died", What: "Match on a valid-or-not definition took the (memory-limited, watchdogged) process down: " + res.Died, Case: one(l)})
+			run.Dist["match:process-died"]++
+			run.CountOnly("", false)
+			continue
+		}
+		m, panicked, pmsg, alloc := res.M, res.Panicked, res.PMsg, res.Alloc
 		obs := "MPanic"
 		switch {
 		case panicked:
-		case merr != nil:
+		case res.MErr != "":
 			obs = "MErr"
 		default:
 			obs = vh.CApp("MOk", vh.CBool(m))
@@ -521,8 +654,8 @@ func runDef(run *vh.Run, d *jDef, logs []jLog) {
 			switch {
 			case panicked:
 				run.Violate(vh.Violation{Key: panicKey(pmsg), What: "Match panicked on a valid definition: " + pmsg, Case: one(l)})
-			case merr != nil:
-				run.Violate(vh.Violation{Key: "C17:match-error-on-valid-definition", What: "Match returned an error on a valid definition: " + merr.Error(), Case: one(l)})
+			case res.MErr != "":
+				run.Violate(vh.Violation{Key: "C17:match-error-on-valid-definition", What: "Match returned an error on a valid definition: " + res.MErr, Case: one(l)})
 			default:
 				want := refMatch(d, l)
 				if want >= 0 && m != (want == 1) {
@@ -538,19 +671,15 @@ func runDef(run *vh.Run, d *jDef, logs []jLog) {
 				}
 			}
 			// work bounded by the log's size: a generous linear budget per predicate
-			budget := uint64(len(d.Preds)+1)*(8*uint64(len(lg.Data))+1024) + 4096
-			if !panicked && alloc > budget {
-				// TotalAlloc is process-wide: an occasional runtime-internal allocation lands in
-				// the window. What Match itself allocates is allocated on every repetition.
-				for i := 0; i < 4 && alloc > budget; i++ {
-					if again := allocDelta(func() { vh.Guard(func() { real.Match(lg) }) }); again < alloc {
-						alloc = again
+			if budget := allocBudget(d, len(lg.Data)); !panicked && alloc > budget {
+				key := "C17:match-alloc:not-bounded-by-log-size"
+				for _, p := range d.Preds {
+					if p.Dyn {
+						key = "C17:match-alloc:getOffsetDataValue-length-not-bounded-by-data"
 					}
 				}
-			}
-			if !panicked && alloc > budget {
-				run.Violate(vh.Violation{Key: "C17:match-alloc:getOffsetDataValue-length-not-bounded-by-data",
-					What: fmt.Sprintf("Match allocated %d bytes for a log with %d bytes of data (budget %d)", alloc, len(lg.Data), budget), Case: one(l)})
+				run.Violate(vh.Violation{Key: key,
+					What: fmt.Sprintf("Match allocated %d bytes for a log with %d bytes of data (budget %d = (predicates+1)*(8*len(data)+1024)+4096): the work is not bounded by the log's size", alloc, len(lg.Data), budget), Case: one(l), Observed: alloc, Expected: budget})
 			}
 		}
 		run.Dist["match:"+strings.Fields(strings.Trim(obs, "()"))[0]+obsSuffix(obs)]++
@@ -1236,6 +1365,17 @@ func forced(run *vh.Run) {
 	logs = append(logs, big32)
 	runDef(run, dd, logs)
 
+	// resource probes: references far into the data against logs with 0 / 32 / 40 data bytes. The
+	// answer must cost what the log costs, not what the offset stored in the definition says
+	// (offsets up to 2^32-1 are valid; beyond isolateThreshold the Match runs in a child process).
+	four := []string{h0, h0, h0, h0}
+	for _, k := range []uint64{1 << 10, 1 << 16, 1 << 20, 1 << 22, 1<<22 + 1, 1 << 27, 1<<32 - 5} {
+		off := 4 + k
+		short := []jLog{mk(four, nil), mk(four, make([]byte, 32)), mk(four, bytes.Repeat([]byte{1}, 40)), mk(nil, good)}
+		runDef(run, &jDef{Contract: addrA, Preds: []jPred{uintP(off, 2, big.NewInt(0)), uintP(3, 4, big.NewInt(0))}}, short)
+		runDef(run, &jDef{Contract: addrA, Preds: []jPred{dynEq(off, hello)}}, short)
+		runDef(run, &jDef{Contract: addrA, Preds: []jPred{uintP(off, 1, two256), dynEq(off-1, nil), topicEq(0, unhx(h0))}}, short)
+	}
 	// uint comparisons on dynamic values and static words, all operators
 	for op := uint64(0); op < 5; op++ {
 		for _, arg := range []*big.Int{big.NewInt(0), big.NewInt(100), new(big.Int).Sub(two256, big.NewInt(1)), two256} {
@@ -1293,11 +1433,15 @@ func forced(run *vh.Run) {
 // ---------------------------------------------------------------------------------------
 
 func main() {
+	if os.Getenv("C17_CHILD") == "1" {
+		childMain()
+		return
+	}
 	debug.SetMemoryLimit(1 << 30)
 	run := vh.Start("Verif.Corr.C17", 120)
 	defer run.Finish()
 	run.SetPreamble("From Verif Require Import Lib.Rlp Model.TriggerDef.\nOpen Scope list_scope.\n" + initNamed())
-	run.Rule = "definition cases: a generated definition (all operators, topic/static/dynamic references, 0..4 and occasionally up to 12 predicates, boundary integers, one in seven deliberately invalid) with logs aimed at it (values equal/adjacent to the arguments, well-formed ABI tails, then truncations and hostile pointers/lengths up to 2^64-1); non-trivial = valid definition with at least one predicate, at least one log that matched and at least one rejected by a predicate. decoder cases: real encodings, 22 structural/canonical-form mutations written with an independent RLP writer, bit flips, truncations, trailing bytes, wrong versions, random bytes; non-trivial = got past the version byte into the RLP decoder with more than 24 bytes, or decoded. distinct by canonical JSON of the case"
+	run.Rule = "definition cases: a generated definition (all operators, topic/static/dynamic references, 0..4 and occasionally up to 12 predicates, boundary integers, one in seven deliberately invalid) with logs aimed at it (values equal/adjacent to the arguments, well-formed ABI tails, then truncations and hostile pointers/lengths up to 2^64-1; forced resource probes: static and dynamic references 2^10..2^32-5 words into the data against logs with 0/32/40 data bytes, bytes allocated per Match (runtime TotalAlloc delta, minimum of up to 5 repetitions) against (predicates+1)*(8*len(data)+1024)+4096; definitions referring more than 2^22 words into the data are matched in a child process under RLIMIT_AS 3 GiB and a 60 s watchdog, a dead child is a violation); non-trivial = valid definition with at least one predicate, at least one log that matched and at least one rejected by a predicate. decoder cases: real encodings, 22 structural/canonical-form mutations written with an independent RLP writer, bit flips, truncations, trailing bytes, wrong versions, random bytes; non-trivial = got past the version byte into the RLP decoder with more than 24 bytes, or decoded. distinct by canonical JSON of the case"
 	if run.Replay != "" {
 		var c jCase
 		if err := run.LoadReplay(&c); err != nil {
